@@ -93,6 +93,17 @@ CLAIMS['C18'] = dict(
          'sum-to-one numerically.',
     technique='effects/derived-state closure with virtual dispatch, exact rational algebra on builder bodies, accessor field-set comparison')
 
+CLAIMS['C16'] = dict(
+    text='Decides structural necessary conditions for every instrument class below SpectroscopicInstrument: each lazily computed '
+         'setting (spectral range, bin count, pipeline classes and kwargs) is guarded by a sentinel that its builder sets, that '
+         'every constructor initialises and that every setter writing a field the builder reads -- resolved on the concrete '
+         'class -- resets or rebuilds, so no setting can survive a change of a parameter it was computed from; eager derived '
+         'state (pixel wavelength arrays) is rebuilt by every setter of its sources; calibrate divides the integral over '
+         '[e_i, e_(i+1)] by the width of the same pixel for every pixel, after the range check; the range/step/bin-count '
+         'formulas of Spectrometer and Polychromator are the documented ones. Does not decide the floating-point bin-width '
+         'inequality or conservation under arbitrary source binning (raysect Spectrum.integrate).',
+    technique='effects/derived-state closure over Python classes (lazy-sentinel typestate), constructor-initialisation check, structural formula matching')
+
 # ---- everything not claimed above is pending / not applicable
 _pending = 'check not built yet in this session (see DESIGN.md build order); not claimed until it is'
 for _p in ['C%02d' % i for i in range(1, 21)]:
